@@ -1,0 +1,61 @@
+//
+// Verification hooks (only compiled with -DNNG_VERIF; inert unless switched on).
+//
+// These give an external verification harness three things:
+//  - a task gate: nni_task_dispatch can hand tasks to the harness instead of
+//    the task queue, so the harness decides when each callback runs;
+//  - a virtual clock: nni_clock() can be supplied by the harness;
+//  - trace points: one record per linearization point, written as ndjson to
+//    the file named by the environment variable NNG_VERIF_TRACE, or to a
+//    sink function installed by the harness.
+//
+
+#ifndef CORE_VERIF_H
+#define CORE_VERIF_H
+
+#ifdef NNG_VERIF
+
+#include "defs.h"
+#include "taskq.h"
+
+typedef struct nni_verif_ops {
+	// Return true to take the task (it will not be queued). The harness
+	// later runs it with nni_verif_task_run.
+	bool (*task_gate)(nni_task *);
+	// If not NULL, nni_clock() returns this.
+	nni_time (*clock)(void);
+	// If not NULL, receives every trace record (one ndjson line,
+	// no trailing newline) instead of the trace file.
+	void (*sink)(const char *);
+	// If not NULL, called with the iovec count/length about to be used by
+	// a stream read (dir 0) or write (dir 1) on fd; returns the maximum
+	// number of bytes to transfer in this system call (0 = no clamp).
+	size_t (*io_clamp)(int fd, int dir, size_t want);
+} nni_verif_ops;
+
+extern nni_verif_ops nni_verif;
+
+extern bool nni_verif_tracing(void);
+// fmt/... produce the body of a JSON object without braces, e.g.
+// "\"rv\":%d"; may be NULL.
+extern void nni_verif_trace(
+    const char *obj, const void *ptr, const char *ev, const char *fmt, ...);
+extern void     nni_verif_task_run(nni_task *);
+extern nni_time nni_verif_real_clock(void);
+
+#define NNI_VERIF_TRACE(...)                      \
+	do {                                      \
+		if (nni_verif_tracing()) {        \
+			nni_verif_trace(__VA_ARGS__); \
+		}                                 \
+	} while (0)
+
+#else
+
+#define NNI_VERIF_TRACE(...) \
+	do {                 \
+	} while (0)
+
+#endif // NNG_VERIF
+
+#endif // CORE_VERIF_H
